@@ -887,3 +887,41 @@ Definition ex_static : @vtree Z nat nat :=
            W (3%Z, Lambda) [Static 0; Node 0 [W (4%Z, NonTrainable) [Arr KInt (mkT [] [5%Z])]]; Node 1 [];
                             Arr KInt (mkT [] [0%Z])];
            Static 7 ].
+
+(* ---------- vmap over a stacked batch = the Python loop ---------- *)
+Section VmapP.
+  Context {A : Type}.
+  Lemma mapM_map {X Y Z} (g : X -> Y) (f : Y -> option Z) l : mapM f (map g l) = mapM (fun x => f (g x)) l.
+  Proof. induction l as [|x l IH]; cbn; [reflexivity|]. rewrite IH. reflexivity. Qed.
+  Lemma mapM_seq_nth {Y} (xs : list Y) : forall f : nat -> option Y,
+    (forall i x, nth_error xs i = Some x -> f i = Some x) -> mapM f (seq 0 (length xs)) = Some xs.
+  Proof.
+    induction xs as [|x xs IH]; intros f H; cbn [length seq mapM]; [reflexivity|].
+    rewrite (H 0 x eq_refl). rewrite <- seq_shift, mapM_map, IH; [reflexivity|].
+    intros i y Hi. apply H. exact Hi.
+  Qed.
+  Definition wf_batch (sh : list nat) (xs : list (tensor A)) : Prop :=
+    Forall (fun y => tshape y = sh /\ length (tdata y) = tsize sh) xs.
+  Lemma unstack_stack (xs : list (tensor A)) sh :
+    wf_batch sh xs -> unstack (length xs) (stack_t (length xs) xs) = Some xs.
+  Proof. intros H. unfold unstack. apply mapM_seq_nth. intros i x Hi. eapply slice_stack_t; eauto. Qed.
+  (* jax.vmap(f) applied to the stack of xs is the stack of the individual results *)
+  Lemma vmap_is_map (f : tensor A -> tensor A) (xs : list (tensor A)) sh :
+    wf_batch sh xs -> vmap_t f (length xs) (stack_t (length xs) xs) = Some (stack_t (length xs) (map f xs)).
+  Proof. intros H. unfold vmap_t. rewrite (unstack_stack xs sh H). reflexivity. Qed.
+  (* ... and reading the batched result back element by element gives exactly the loop's outputs *)
+  Lemma vmap_unstack (f : tensor A -> tensor A) (xs : list (tensor A)) sh sh' :
+    wf_batch sh xs -> wf_batch sh' (map f xs) ->
+    match vmap_t f (length xs) (stack_t (length xs) xs) with
+    | Some y => unstack (length xs) y = Some (map f xs)
+    | None => False
+    end.
+  Proof.
+    intros H H'. rewrite (vmap_is_map f xs sh H). rewrite <- (map_length f xs) at 1 2. eapply unstack_stack; eauto.
+  Qed.
+End VmapP.
+
+Definition ex_like : @vtree Z nat nat :=
+  Node 0 [ Arr KFloat (mkT [2] [0; 0]%Z); Static 3; Node 1 [Arr KInt (mkT [] [0%Z]); Hole]; W (1%Z, Where) [Arr KBool (mkT [1] [0%Z])] ].
+Definition ex_obj : @vtree Z nat nat :=
+  Node 0 [ Arr KFloat (mkT [2] [4; 5]%Z); Static 3; Node 1 [Arr KInt (mkT [] [7%Z]); Hole]; W (1%Z, Where) [Arr KBool (mkT [1] [1%Z])] ].
